@@ -65,6 +65,20 @@ CHECKS = {
                 "node's children (expression-valued dataclass fields). Order among a node's children is not constrained.",
         "technique": "bounded exhaustive symbolic execution of the real mappers; small-domain choices forked with z3 feasibility + coverage query; path assertions against an independent traversal spec",
     },
+    "C05": {
+        "level": "model_checking",
+        "text": "Bounded model checking of call histories: which expression (16-element pool with heavy sharing, "
+                "equal-but-not-identical subtrees, 4/4.0/True as direct keys) and which extra-argument tuple is sent to ONE "
+                "memoizing mapper instance at each step is a symbolic selector enumerated by the solver (coverage-checked); "
+                "after every call the result is compared type-strictly with the non-memoizing counterpart applied afresh, for "
+                "the identity, combine, collector, walk, substitution and CSE-mixin mappers; handler invocation counts per key; "
+                "all 72 dependency-flag settings; for Cached/EvaluationMapper the environment is symbolic and z3 proves "
+                "equality for every environment. The optimizer's five switches are symbolic booleans (32 combinations, "
+                "coverage-checked) applied to four mapper classes, plus pairs of invocations in one process.",
+        "design_ref": "DESIGN.md §4 C05",
+        "note": "Trusted: the uncached mapper applied afresh as the oracle. History length 2 (quick) / 3 (thorough).",
+        "technique": "bounded model checking of call histories with solver-enumerated selectors and coverage queries; z3 validity queries for the evaluation pair",
+    },
     "C06": {
         "level": "translation_validation",
         "text": "Per-tree translation validation: for every (parent, slot, child) skeleton of the printable fragment, every "
